@@ -65,16 +65,16 @@ def events(node, out):
     if rn.startswith("__asgn"):
         op = rn.split("_")[-1]
         attr = node.rule._attr_name
+        # children of an assignment node: a child is a separator node exactly when the expression that produced it is
+        # the separator of this repetition (a fact about the parse tree, independent of how the builder tells them)
+        sep = getattr(node.rule, "sep", None) if op in ("oneormore", "zeroormore") else None
         if op == "optional":
-            out.append([attr, op, []])
+            kids = []
         elif op == "plain":
-            out.append([attr, op, [canon(term_value(node[0]))]])
+            kids = [[False, node[0].rule_name == "sep", canon(term_value(node[0]))]]
         else:
-            # children of a list assignment: a child is a separator node exactly when the expression that produced it is
-            # the separator of this repetition (a fact about the parse tree, independent of how the builder tells them)
-            sep = getattr(node.rule, "sep", None)
-            kids = [(["s", canon(n.flat_str())] if (sep is not None and n.rule is sep) else ["v", canon(term_value(n))]) for n in node]
-            out.append([attr, op, [c for k, c in kids if k == "v"], kids, sep is not None])
+            kids = [[sep is not None and n.rule is sep, n.rule_name == "sep", canon(term_value(n))] for n in node]
+        out.append([attr, op, [c for s, _, c in kids if not s], kids, sep is not None])
         return
     if hasattr(node, "__iter__") and not isinstance(node, str) and type(node).__name__ == "NonTerminal":
         for n in node:
